@@ -20,13 +20,13 @@ Correspondence and oracle (every run):
 import json
 import os
 import re
+import shutil
 import struct
 import time
 
 import c13_extract
 import c13_harness as H
-from vlib import (AU_INC, SAN_CLANG, SAN_GCC, UBSAN_ENV, Driver, cxx, finish, kv, pmap, prove, rng_for, run,
-                  workdir)
+from vlib import (AU_INC, UBSAN_ENV, Driver, cxx, finish, kv, link_cmd, pmap, prove, rng_for, run, workdir)
 
 PROP = "C13"
 
@@ -80,7 +80,15 @@ def hi(r):
 
 
 def family(compiler):
-    return "clang" if compiler.startswith("clang") else "gcc"
+    return "gcc" if compiler == "g++" else "clang"      # "exact" = clang++-14 with the exact-count UBSan handlers
+
+
+def real_compiler(compiler):
+    return "clang++-14" if compiler == "exact" else compiler
+
+
+def cfg_name(compiler, std):
+    return f"{compiler} -std={std}"
 
 
 # ------------------------------------------------------------------------------------------------
@@ -328,18 +336,24 @@ def generated_units(rng, units, n):
 # building and running
 # ------------------------------------------------------------------------------------------------
 
-NOUIO = ["-fno-sanitize=unsigned-integer-overflow"]     # unsigned wrap-around is part of the raw semantics here
+# Unsigned wrap-around is part of the semantics of the built-in operators (the property does not forbid it: the
+# Quantity operator must wrap exactly like the built-in one), and the harness's own hash / RNG wrap on purpose, so the
+# unsigned-integer-overflow check is switched off in the clang and "exact" builds.  Everything in -fsanitize=undefined
+# stays on.  In the "exact" build (clang++-14, minimal runtime + /verif/harness/ubsan_exact.cc) EVERY execution of an
+# undefined operation calls __ubsan_on_report, so the per-input / per-sweep `ub` counts are exact there; the full
+# runtimes of g++ / clang++ report a source location once per process (and g++ never calls the hook), so their `ub`
+# columns are informational and ASan is what those builds add.
+NOUIO = ["-fno-sanitize=unsigned-integer-overflow"]
 
 
-def san_flags(compiler):
-    return (SAN_CLANG + NOUIO) if compiler.startswith("clang") else SAN_GCC
+def no_uio(compiler):
+    return [] if compiler == "g++" else NOUIO
 
 
 def compile_objs(wd, files, compiler, std, tag):
     def comp(src):
         obj = src[:-3] + f".{tag}.o"
-        extra = ["-c"] + (NOUIO if compiler.startswith("clang") else [])
-        rc, out = cxx(src, obj, compiler=compiler, std=std, extra=extra)
+        rc, out = cxx(src, obj, compiler=compiler, std=std, extra=["-c"] + no_uio(compiler))
         return src, obj, rc, out
     objs = []
     for src, obj, rc, out in pmap(comp, files):
@@ -350,7 +364,7 @@ def compile_objs(wd, files, compiler, std, tag):
 
 
 def link(objs, exe, compiler):
-    rc, out, err = run([compiler] + san_flags(compiler) + objs + ["-o", exe])
+    rc, out, err = run(link_cmd(compiler, objs, exe, extra=no_uio(compiler)))
     if rc != 0:
         return {"src": "link", "output": (out + err)[-4000:]}
     return None
@@ -423,7 +437,7 @@ def explore_layout(wd, drv, configs, rng, tier, stats, viol, samples):
 
         def build(src):
             exe = src[:-3] + f".{tag}"
-            rc, out = cxx(src, exe, compiler=compiler, std=std, extra=(NOUIO if compiler.startswith("clang") else []))
+            rc, out = cxx(src, exe, compiler=compiler, std=std, extra=no_uio(compiler))
             return src, exe, rc, out
         for src, exe, rc, out in pmap(build, files):
             if rc != 0:
@@ -433,6 +447,11 @@ def explore_layout(wd, drv, configs, rng, tier, stats, viol, samples):
                 continue
             rc, o, e = run([exe], env=UBSAN_ENV, timeout=600)
             rows = [l for l in o.split("\n") if l.startswith("L ")]
+            ubl = [l for l in o.split("\n") if l.startswith("U ")]
+            if ubl and kv(ubl[0]).get("ub") != "0":
+                viol.append({"what": f"sanitizer report while constructing Quantity / QuantityPoint objects under {cfg}", "class": "layout-ub",
+                             "no_input": True, "broken": "layout harness (default / value construction)",
+                             "rec": {"kind": "ub", "config": cfg, "impl": ubl[0]}, "detail": e[-2000:]})
             if rc != 0 or not rows:
                 viol.append({"what": f"layout harness failed at run time under {cfg}", "class": "layout-run", "no_input": True,
                              "broken": "layout harness", "rec": {"kind": "run", "config": cfg}, "detail": (o + e)[-3000:]})
@@ -560,7 +579,7 @@ def reject_reason(c):
 def cxx_default_diag(src, compiler, std):
     """-fsyntax-only with the compiler's *default* diagnostics (vlib.cxx passes -w, which also switches off clang's
     default-error -Wc++11-narrowing; acceptance by the compiler is an observable of this property, so no -w here)."""
-    rc, o, e = run([compiler, f"-std={std}", "-I", AU_INC, "-fsyntax-only", src], timeout=600)
+    rc, o, e = run([real_compiler(compiler), f"-std={std}", "-I", AU_INC, "-fsyntax-only", src], timeout=600)
     return rc, o + e
 
 
@@ -840,7 +859,7 @@ def explore_rt(wd, drv, configs, rng, tier, stats, viol, samples, distinct):
     for ci, (compiler, std, tag) in enumerate(configs):
         cfg = f"{compiler} -std={std}"
         exe = os.path.join(wd, f"rt_{tag}")
-        rc, out = cxx(p, exe, compiler=compiler, std=std, extra=(NOUIO if compiler.startswith("clang") else []))
+        rc, out = cxx(p, exe, compiler=compiler, std=std, extra=no_uio(compiler))
         if rc != 0:
             viol.append({"what": f"round-trip harness does not compile under {cfg}", "class": "rt-build", "no_input": True,
                          "broken": "round-trip harness (unit(x).in(unit), data_in, unit_pt(x).in(unit_pt))",
@@ -859,7 +878,7 @@ def explore_rt(wd, drv, configs, rng, tier, stats, viol, samples, distinct):
             for k in range(per):
                 lines.append(f"N {r} {n // per} {rng.getrandbits(63)}")
                 meta.append(("N", r, None))
-        full = tier == "thorough" and (compiler, std) in (("g++", "c++14"), ("clang++-14", "c++17"), ("g++", "c++20"))
+        full = tier == "thorough" and (compiler, std) in (("g++", "c++14"), ("clang++-14", "c++17"), ("exact", "c++14"))
         if full:
             for s in range(64):
                 lines.append(f"F {s} 64")
@@ -911,16 +930,21 @@ def explore_rt(wd, drv, configs, rng, tier, stats, viol, samples, distinct):
 # ------------------------------------------------------------------------------------------------
 
 def pick_configs(tier, seed):
+    """quick: g++ c++14 (ASan + UBSan) and "exact" (clang++-14 code generation and front end, exact-count UBSan) at a
+    seed-chosen standard; thorough: all six compiler x standard configurations plus "exact"."""
     if tier == "thorough":
         return [("g++", "c++14", "g14"), ("g++", "c++17", "g17"), ("g++", "c++20", "g20"),
-                ("clang++-14", "c++14", "c14"), ("clang++-14", "c++17", "c17"), ("clang++-14", "c++20", "c20")]
+                ("clang++-14", "c++14", "c14"), ("clang++-14", "c++17", "c17"), ("clang++-14", "c++20", "c20"),
+                ("exact", "c++14", "x14")]
     std2 = ["c++14", "c++17", "c++20"][seed % 3]
-    return [("g++", "c++14", "g14"), ("clang++-14", std2, "c" + std2[-2:])]
+    return [("g++", "c++14", "g14"), ("exact", std2, "x" + std2[-2:])]
 
 
 def main(tier, seed):
     t0 = time.time()
-    wd = workdir(PROP)
+    # private scratch directory: vlib.workdir(PROP) is wiped by every start of this check, and two runs of it may overlap
+    # (a concurrent run once removed the object files of a thorough run between compile and link)
+    wd = workdir(f"{PROP}.run{os.getpid()}")
     rng = rng_for(PROP, seed)
     viol, samples, distinct = [], [], set()
     stats = {}
@@ -938,7 +962,10 @@ def main(tier, seed):
                      "broken": "tools/c13_extract.py", "rec": {"kind": "extract"}})
     proof = prove(PROP)
     configs = pick_configs(tier, seed)
-    stats["configs"] = [f"{c} -std={s}" for c, s, _ in configs]
+    stats["configs"] = [f"{c} -std={s}" + (" (clang++-14, exact-count UBSan handlers, no ASan)" if c == "exact" else "")
+                        for c, s, _ in configs]
+    stats["ub_counting"] = ("exact per input / per sweep in the `exact` configuration; informational (once per source location, "
+                            "never under g++) in the ASan+UBSan configurations")
     if proof.get("build_ok"):
         drv = Driver()
         nunits = 0
@@ -985,7 +1012,10 @@ def main(tier, seed):
         "exhaustive": False,
         "distribution": stats,
     }
-    return finish(PROP, tier, seed, t0, proof, coverage, viol, ASSUME)
+    code = finish(PROP, tier, seed, t0, proof, coverage, viol, ASSUME)
+    if code == 0:
+        shutil.rmtree(wd, ignore_errors=True)      # kept for inspection when something was reported
+    return code
 
 
 # ------------------------------------------------------------------------------------------------
